@@ -205,6 +205,7 @@ type certSpec struct {
 	ca         bool
 	ocspSigner bool
 	v1         bool
+	ski        []byte // subjectKeyIdentifier extension value (nil = no extension)
 }
 
 var (
@@ -275,6 +276,9 @@ func buildCertWith(s certSpec, signer signKey) []byte {
 		} else {
 			exts = append(exts, dSeq(dOID(2, 5, 29, 15), dBool(true), dOctet(tlv(0x03, []byte{7, 0x80})))) // digitalSignature
 		}
+		if s.ski != nil {
+			exts = append(exts, dSeq(dOID(2, 5, 29, 14), dOctet(dOctet(s.ski))))
+		}
 		if s.ocspSigner {
 			exts = append(exts, dSeq(dOID(2, 5, 29, 37), dOctet(dSeq(dOID(1, 3, 6, 1, 5, 5, 7, 3, 9)))))
 		}
@@ -287,6 +291,7 @@ func buildCertWith(s certSpec, signer signKey) []byte {
 // party is a key with a name and (for CAs / responders) a certificate in both parsed forms.
 type party struct {
 	label string
+	ski   string // subjectKeyIdentifier style of the certificate (issuers of the C13 universe)
 	name  *dn
 	ec    *ecdsa.PrivateKey // nil for RSA parties
 	rsa   *stdrsa.PrivateKey
